@@ -5,7 +5,7 @@ set -u
 cd /verif
 T=$(mktemp -d /tmp/reconf.XXXX)
 for d in seeded/*; do id=$(basename $d); mkdir -p $T/$id; cp $d/patch.diff $T/$id/; cp $d/seeded_demo_test.go.txt $T/$id/seeded_demo_test.go; [ -f $d/notes.md ] && cp $d/notes.md $T/$id/; done
-ls -d $T/* | xargs -P 8 -I{} sh -c './tools/confirm_seed.sh {} > {}/confirm.txt 2>&1'
+ls -d $T/* | xargs -P 12 -I{} sh -c './tools/confirm_seed.sh {} > {}/confirm.txt 2>&1'
 python3 - "$T" <<'PY'
 import json,os,re,subprocess,sys,glob
 T=sys.argv[1]
